@@ -170,13 +170,15 @@ let run_mutex (threads : string list list) (res : string) (evs : raw list) : str
 
 (* ------------------------------------------------------------------ skeleton (D3) *)
 let fn_s = function
-  | FnTryAcquire -> "try_acquire" | FnLockSlow -> "lock_slow" | FnUnlock -> "unlock" | FnFixFlags -> "fix_flags"
-  | FnWakeNext -> "wake_next" | FnFutPoll -> "MutexFuture::poll" | FnFutFinish -> "MutexFuture::finish_node"
+  | FnTryAcquire -> "try_acquire" | FnLock -> "lock" | FnLockSlow -> "lock_slow" | FnLockAsync -> "lock_async"
+  | FnTryLock -> "try_lock" | FnUnlock -> "unlock" | FnFixFlags -> "fix_flags" | FnWakeNext -> "wake_next"
+  | FnGuardDrop -> "MutexGuard::drop" | FnFutPoll -> "MutexFuture::poll" | FnFutFinish -> "finish_node"
   | FnFutDrop -> "MutexFuture::drop" | FnListLock -> "WaitList::lock" | FnListUnlock -> "ListGuard::drop"
   | FnRearm -> "rearm" | FnMarkWoken -> "take_and_mark_woken" | FnWake -> "Waiter::wake"
 
 let sop_s = function
-  | SLoad -> "load" | SStore -> "store" | SSwap -> "swap" | SCas -> "cas" | SFor -> "fetch_or" | SFand -> "fetch_and"
+  | SLoad -> "load" | SStore -> "store" | SSwap -> "swap" | SCas -> "cas" | SCasWeak -> "casw"
+  | SFor -> "fetch_or" | SFand -> "fetch_and" | SFadd -> "fetch_add" | SFsub -> "fetch_sub"
   | SPark -> "park" | SUnpark -> "unpark" | SYield -> "yield_now" | SSpin -> "spin_loop" | SCall f -> "call:" ^ fn_s f
 
 let svar_s = function SvState -> "state" | SvLocked -> "locked" | SvNode -> "node.state" | SvNone -> "-"
